@@ -37,6 +37,7 @@ var depths = map[string][4]int{
 	"v2":       {2, 3, 1, 1},
 	"v2active": {2, 3, 1, 1},
 	"returned": {2, 3, 1, 1},
+	"v2ready":  {2, 3, 1, 1},
 }
 
 // artefact of a violation / replay
